@@ -63,6 +63,20 @@ def percentile_vcs():
         vcs.append(reach_vc(wp, name, hdr))
         fns.append({'c_name': name, 'cxx': 'nano::detail::percentile<' + ', '.join(astload.template_args(fn))[:70] + '>', 'file': hdr,
                     'line': fn.get('loc', {}).get('line'), 'sha': astload.file_hash(hdr)})
+    # the instance the median wrappers use (specs/C20/stats.h NV_MEDIAN_OF): the rule proved above, at p = 50, is the middle order
+    # statistic for odd n and the mean of the two middle ones for even n (a lemma about the rule, proved once)
+    lemma = """(declare-fun F (Int) Real)
+(declare-const n Int)
+(assert (>= n 1))
+(define-fun pos () Real (/ (* 50.0 (to_real (- n 1))) 100.0))
+(define-fun lo () Int (to_int pos))
+(define-fun rule () Real (ite (= (to_real lo) pos) (F lo) (/ (+ (F lo) (F (+ lo 1))) 2.0)))
+(define-fun med () Real (ite (= (mod n 2) 1) (F (div (- n 1) 2)) (/ (+ (F (- (div n 2) 1)) (F (div n 2))) 2.0)))
+(assert (not (= rule med)))
+(check-sat)
+"""
+    vcs.append(VC('detail::percentile/median_instance: the percentile rule at p = 50 is F((n-1)/2) for odd n and (F(n/2-1) + F(n/2))/2 for even n', lemma,
+                  about='lemma linking the proved percentile rule to the median reference', source={'file': hdr}))
     return vcs, fns
 
 
